@@ -37,7 +37,7 @@ assert len(ALPHABET) == 23
 RANDOM_EXTRA = ['\n', '\t', 'é', '٣', ':', '!', '@', '%', '|', ',', '0', 'l', 'x', '_', '²', ' ']
 HANG_S = 5.0
 NUM_FRAGS = ['$', '$$', '$$$', '@', '@-', '@^', '@^^', '^', '^^', '-', '3', '12', '0', '*', '*2', '*3', '*0', 'a', 'li', '.c', '#i', '>', '+',
-             '(', ')', '{', '}', '[t=', ']', '$#', '${1}', '${', 'lorem', 'lorem5', '-1', '-', '/', 'ul>li', '.i$@^', '{$@^^^}', '$@^^-2']
+             '(', ')', '{', '}', '[t=', ']', '$#', '${1}', '${', '-1', '-', '/', 'ul>li', '.i$@^', '{$@^^^}', '$@^^-2']
 
 SYNTAXES = ['html', 'xml', 'xsl', 'jsx', 'js', 'pug', 'slim', 'haml', 'vue', 'svelte', 'xhtml']
 TEXTS = [None, None, None, 'hello', 'two\nlines', '  ', '', ['x'], ['x', 'y', 'z'], ['', ' ', 'q'], [], 'a$#b',
@@ -367,7 +367,6 @@ def random_cfg(rng):
     return cfg
 
 
-RE_LOREM_HUGE = re.compile(r'lorem[a-z]*[0-9$]{6,}', re.I)
 RE_REPEAT = re.compile(r'\*(\d+)')
 MAX_COPIES = 400
 
@@ -412,12 +411,6 @@ class Cases:
         return self.index[k]
 
     def add(self, abbr, cfg, tag):
-        if RE_LOREM_HUGE.search(abbr):
-            # `lorem` followed by >= 6 digits/`$` asks for >= 100 000 generated words (`lorem5$$$$$$$` is the name
-            # lorem50000001: 55 s of output, slow, not a hang) -- same reason as bound_copies; there is no option
-            # that limits the lorem word count, so these inputs are left out
-            self.skipped_lorem = getattr(self, 'skipped_lorem', 0) + 1
-            return
         self.items.append((abbr, self.cfg_id(bound_copies(abbr, cfg)), tag))
 
 
